@@ -7,9 +7,22 @@
      -> reorder_by_affinity -> host_cpu_plans_g -> get_full_plans_g (affinity)
      -> aff_loop: first plan = first [full] cores of the reordered list. *)
 From Coq Require Import String Ascii List ZArith Bool Lia Permutation Sorted.
-From Verif Require Import Base.GoInt Base.GoFloat Cpumem.Types Cpumem.Schedule Cpumem.SchedProofs Cpumem.BookProofs.
+From Verif Require Import Base.GoInt Base.GoFloat Cpumem.Types Cpumem.Schedule Cpumem.BookProofs.
 Import ListNotations.
 Local Open Scope Z_scope.
+
+(* ---------- insertion sort ---------- *)
+Lemma insert_by_perm {A} (less : A -> A -> bool) x l : Permutation (insert_by less x l) (x :: l).
+Proof.
+  induction l as [|z t IH]; simpl; [constructor; constructor|].
+  destruct (less z x); [|apply Permutation_refl].
+  eapply perm_trans; [apply perm_skip; exact IH|apply perm_swap].
+Qed.
+Lemma isort_perm {A} (less : A -> A -> bool) l : Permutation (isort less l) l.
+Proof.
+  induction l as [|x t IH]; simpl; auto.
+  eapply perm_trans; [apply insert_by_perm | apply perm_skip, IH].
+Qed.
 
 (* ---------- insertion sort by a key ---------- *)
 Lemma isort_ext {A} (l1 l2 : A -> A -> bool) l : (forall a b, l1 a b = l2 a b) -> isort l1 l = isort l2 l.
